@@ -145,4 +145,14 @@ def part_f(ctx):
             ctx.sample({"part": "f", "run": small, "cells_checked": rr["cells_checked"], "coo_sizes": rr["coo_sizes"]}, limit=6)
 
 
-PARTS = [("d", part_d), ("e", part_e), ("f", part_f)]
+def part_s(ctx):
+    """schedules: every interleaving of workers over chunks ends in the same accumulator (Prange.tla, with liveness)"""
+    for nc, nw, contrib in [(4, 3, [[1, 0, 2], [0, 3, 1], [2, 2, 0], [1, 1, 1]]), (5, 2, [[1, 2], [3, 0], [0, 0], [2, 2], [1, 5]]),
+                            (3, 4, [[1], [2], [3]])][: ctx.pick(2, 3)]:
+        r = tlc.run_tlc("Prange", dict(NChunks=nc, NWorkers=nw, Contribution=contrib), spec="Spec",
+                        invariants=["Conservation", "Exclusive", "ScheduleIndependent"], properties=["Terminates"], workers=4, timeout=1800)
+        ctx.add_tlc(r, "Prange.tla %d chunks x %d workers (all interleavings)" % (nc, nw))
+        ctx.tlc_violation(r, "Prange schedules")
+
+
+PARTS = [("d", part_d), ("s", part_s), ("e", part_e), ("f", part_f)]
